@@ -42,7 +42,12 @@ fn plan_module(r: &mut Rng, dir: &str, k: usize, hostile: bool) -> ModPlan {
         spec.has_phdrs = true;
         spec.bias = 0;
     }
-    let kind = *r.pick(&["whole", "whole", "split", "gap", "archive", "ro-nonzero", "rw", "notelf", "empty-id"]);
+    let mut kind = *r.pick(&["whole", "whole", "split", "gap", "archive", "ro-nonzero", "rw", "notelf", "empty-id"]);
+    // an executable image directly followed by the linker's reserved, inaccessible tail (folded into the module's
+    // size but not into its system range) — side stream
+    if Rng::new(r.0 ^ 0x5be0_cd19_137e_2179).chance(1, 5) {
+        kind = "tail";
+    }
     if kind == "empty-id" {
         spec.build_id = Some(vec![0u8; 20]); // an all-zero identifier: the mapping is not a module
         spec.note_phdr = true;
@@ -86,6 +91,7 @@ fn plan_module(r: &mut Rng, dir: &str, k: usize, hostile: bool) -> ModPlan {
     let layout = match kind {
         "split" => format!("0:1:r,0x1000:{}:rx", want_pages - 1),
         "gap" => format!("0:1:rx,g:{},0x1000:{}:rw", r.range(1, 3), want_pages - 1),
+        "tail" => format!("0:{}:rx,g:{}", want_pages, Rng::new(r.0 ^ 0x1234).range(1, 3)),
         "archive" => format!("0x1000:{}:rx", want_pages),
         "ro-nonzero" => format!("0x1000:{}:r", want_pages - 1),
         "rw" => format!("0:{}:rw", want_pages),
@@ -139,7 +145,7 @@ pub fn generate(prop: &str, seed: u64, tier: &str, out: &mut dyn std::io::Write)
             let (st, sz) = match r.below(6) {
                 0 => (a, len),
                 1 => (a - PAGE as u64, len + 2 * PAGE as u64),
-                2 => (a, PAGE as u64),
+                2 => (a, PAGE as u64 * Rng::new(r.0 ^ 0x77).range(1, p.max(1))),
                 3 => (a + PAGE as u64, len),
                 4 => (0x7000_0000_0000 + r.below(16) * 0x10000, 0x3000),
                 _ => (a, len + PAGE as u64),
